@@ -1303,6 +1303,30 @@ func (c *Ctx) genC07() {
 			continue
 		}
 		c.emit("xmlesc", []string{modeTok, encStr(s)}, "ok "+encStr(esc), "")
+		// the library's own writer (hook VerifXMLToBytes): attribute value and character data
+		{
+			d2 := etree.NewDocument()
+			e2 := d2.CreateElement("a")
+			e2.CreateAttr("x", s)
+			e2.SetText(s)
+			out2, err := saml.VerifXMLToBytes(d2)
+			if err == nil {
+				o := string(out2)
+				if strings.HasPrefix(o, `<a x="`) {
+					o = strings.TrimPrefix(o, `<a x="`)
+					if q := strings.Index(o, `"`); q >= 0 {
+						av := o[:q]
+						rest := o[q+1:]
+						tv := ""
+						if strings.HasPrefix(rest, ">") {
+							tv = strings.TrimSuffix(strings.TrimPrefix(rest, ">"), "</a>")
+						}
+						c.emit("xmlesc", []string{"attrcr", encStr(s)}, "ok "+encStr(av), "")
+						c.emit("xmlesc", []string{"textcr", encStr(s)}, "ok "+encStr(tv), "")
+					}
+				}
+			}
+		}
 	}
 	// reader: arbitrary inputs with references, raw CR, ]]>, illegal characters
 	pieces := []string{"&amp;", "&lt;", "&gt;", "&apos;", "&quot;", "&#xD;", "&#13;", "&#x0;", "&#xD800;", "&#x110000;", "&#99999999999999999999;", "&#x;", "&#;", "&;", "&amp", "&bogus;", "&#xZ;", "&#X41;", "&#x41;", "&#065;",
@@ -1375,13 +1399,16 @@ func (c *Ctx) genC07() {
 		}
 		cfg.SigMethod = spSigMethodFor(cfg.KeyName, c)
 		level := 1 + c.rng.Intn(2)
-		c.e2e(cfg, c.randConf(), c.randSession(level, c.chance(0.08)))
+		c.e2e(cfg, c.randConf(), c.randSession(level, c.chance(0.4)))
 	}
 	// unconditional single-dimension sweeps: every hostile piece alone in NameID and in one attribute value, encrypted and not
 	for _, p := range hostilePieces {
 		for _, k := range []string{"sp", "none"} {
 			s := sessS{NameID: "a" + p + "b", Index: "idx", UserName: p, Groups: []string{p + "g"}, Custom: []sessAttr{{Friendly: "f", Name: "n", Format: "urn:x", Values: []string{p, " " + p + " "}}}}
 			c.e2e(e2eCfg{KeyName: k, Binding: "redirect"}, idpConf{}, s)
+			// the same piece in the XML attribute positions (attribute names, session index, NameID format)
+			s2 := sessS{NameID: "alice", NameIDFormat: "f" + p, Index: "i" + p, UserName: "u", Custom: []sessAttr{{Friendly: p + "f", Name: "n" + p, Format: p, Values: []string{"v"}}}}
+			c.e2e(e2eCfg{KeyName: k, Binding: "post"}, idpConf{}, s2)
 		}
 	}
 }
@@ -1778,11 +1805,11 @@ func (c *Ctx) genC08SP() {
 		r := Resp{Dest: cfg.Acs, IRT: "id-req-1", II: now - 500, Issuer: &iss, Status: cfg.Success}
 		respSigs := []string{"none", "idp", "attacker"}
 		asigs := []string{"none", "idp", "attacker", "idp2"}
-		wraps := []string{"p", "e", "e", "b"}
+		wraps := []string{"p", "e", "e", "b", "e", "b-empty", "b-blank", "b-ivonly", "b-truncated", "b-flipped", "b-nokey"}
 		r.Sig = respSigs[c.rng.Intn(3)]
 		k := 1 + c.rng.Intn(2)
 		for j := 0; j < k; j++ {
-			a := good(asigs[c.rng.Intn(4)], wraps[c.rng.Intn(4)])
+			a := good(asigs[c.rng.Intn(4)], wraps[c.rng.Intn(len(wraps))])
 			// perturb a condition sometimes, identically for encrypted and plaintext
 			switch c.rng.Intn(8) {
 			case 0:
@@ -1795,6 +1822,14 @@ func (c *Ctx) genC08SP() {
 				(*a.Subject)[0].Data.IRT = "id-other"
 			}
 			r.Entries = append(r.Entries, a)
+		}
+		if i < 14 {
+			// every malformed-ciphertext flavour at least once, alone and with nothing else wrong
+			r.Sig = "none"
+			r.Entries = []Assn{good("idp", []string{"b-empty", "b-blank", "b-ivonly", "b-truncated", "b-flipped", "b-nokey", "b"}[i%7])}
+			if i >= 7 {
+				r.Sig = "idp"
+			}
 		}
 		c.count("c08-sp-layout", r.Sig+"/"+r.Entries[0].Sig+"/"+r.Entries[0].Wrap)
 		c.runSP(spCase{cfg: cfg, now: now, ids: ids, url: cfg.Acs, r: r, lex: c.rng.Intn(4), entry: c.pick("xml", "post")})
